@@ -148,3 +148,19 @@ Definition referrer_art (k : mkind) (art cfg : N) : N :=
 Definition api_art (k : mkind) (art cfg : N) : N :=
   if negb (art =? 0) then art
   else match k with KImage => cfg | _ => 0 end.
+
+(* ---- buildReferrersTag: "<algorithm>-<encoded>" of the subject's digest.  A subject
+   descriptor is (media type, digest, size), interned; the tag - hence the Pool key,
+   the Merge object and the registry tag that updateReferrersIndex works on - is a
+   function of the digest alone. ---- *)
+Record subject := mkSubj { s_mt : N; s_digest : N; s_size : N }.
+Definition tag_of (d : subject) : N := s_digest d.
+
+Fixpoint index_of_tag (t : N) (l : list subject) (i : nat) : nat :=
+  match l with
+  | [] => i
+  | d :: r => if tag_of d =? t then i else index_of_tag t r (S i)
+  end.
+(* for each descriptor: position of the first descriptor with the same tag *)
+Definition tag_classes (l : list subject) : list nat :=
+  map (fun d => index_of_tag (tag_of d) l 0) l.
